@@ -1,8 +1,120 @@
-(* C14 — placeholder while the proofs are written (replaced below). *)
-From Coq Require Import List Arith.
-Import ListNotations.
-From LCC Require Import Model.Proj Model.Fixture Model.Deps Model.Policy Model.Validate.
+(* C14 — A project that passes validation cannot fail for structural reasons.
+   Only statements here. Models: Model/{Fixture,Deps,Policy,Validate}.v ; proofs: Proofs/{FixtureP,DepsP,ValidateP}.v.
 
-Theorem C14_tmp : validate (plain (mkProject [] [] [])) = Ok (mkPrepared initial_registry []).
-Proof. vm_compute. reflexivity. Qed.
-Print Assumptions C14_tmp.
+   Vocabulary (defined in the Proofs files, all Prop-level):
+     validate x                PreparedProject.create: policy -> dependencies -> registry -> check_dependencies -> check_fixtures_in_suites
+     well_loaded x             the two input assumptions: load_fixtures() returns Fixture objects (fx_builtin = false); a scheduled
+                               test has the dependencies of the test loaded under the same path (suites = filter of load_suites())
+     Invalid x                 exists r, InvalidBecause x r, where InvalidBecause lists, per kind r:
+       PolInvalid              a scheduled suite/test has an unknown / forbidden / missing property, a property value outside the
+                               accepted values, an unknown / forbidden tag
+       DepInvalid              a scheduled test depends on a path that is not loaded / not scheduled, or lies on a dependency cycle
+       builtin clash           a user fixture is named cli_args or project_dir
+       FxInvalid               (fixture_table = last definition of each name) a fixture is named fixture_name; a fixture lies on a
+                               parameter cycle; a parameter is unknown; a non-test fixture uses a per-thread fixture; a fixture
+                               uses a fixture of a narrower scope
+       UseInvalid              a scheduled suite (injected / setup_suite) uses an unknown, per-thread or test-scoped fixture; a
+                               scheduled test uses an unknown fixture *)
+From Coq Require Import List Arith Bool Relations.
+Import ListNotations.
+From LCC Require Import Model.Proj Model.Fixture Model.Deps Model.Policy Model.Validate
+                        Proofs.FixtureP Proofs.DepsP Proofs.ValidateP.
+
+(* Validation rejects, with a ValidationError, exactly the invalid projects, for all fixture graphs, uses, dependency graphs,
+   policies and metadata; and it never ends otherwise (no KeyError, no exhausted fuel: the recursions terminate on cyclic input). *)
+Theorem C14_rejects_exactly : forall x : xproject, well_loaded x ->
+  ((exists r, validate x = Err (ValidationError r)) <-> Invalid x) /\
+  ((exists pp, validate x = Ok pp) \/ (exists r, validate x = Err (ValidationError r))).
+Proof. exact rejects_exactly. Qed.
+Print Assumptions C14_rejects_exactly.
+
+(* the check that rejects names a kind of invalidity the project really has *)
+Theorem C14_rejection_reason : forall (x : xproject) (r : reason), well_loaded x ->
+  validate x = Err (ValidationError r) -> InvalidBecause x r.
+Proof. exact rejection_reason_sound. Qed.
+Print Assumptions C14_rejection_reason.
+
+(* the fuel bounds, on every registry and every pair of test tables (cyclic or not): the ref_fixtures / ref_tests checks are
+   the termination argument *)
+Theorem C14_fixture_recursion_terminates : forall (reg : registry) (n : name), fixture_deps reg n <> Err OutOfFuel.
+Proof. exact fixture_deps_never_out_of_fuel. Qed.
+Print Assumptions C14_fixture_recursion_terminates.
+
+Theorem C14_dependency_recursion_terminates : forall (sched all : dict test) (p : path) (deps : list path),
+  resolve_test_dependencies (resolve_fuel all) sched all p deps [] <> Err OutOfFuel.
+Proof. exact resolve_root_never_out_of_fuel. Qed.
+Print Assumptions C14_dependency_recursion_terminates.
+
+(* Soundness of an accepted project for the fixture machinery. dry_run (Model/Fixture.v) performs, in the runner's order,
+   every ScheduledFixtures operation of a run in which no user code fails: the pre_run, session, suite (pre-order) and test
+   schedules are built by get_fixtures_scheduled_for_*; their fixtures are set up in get_setup_teardown_pairs order
+   (_setup_fixture: "already executed" assertion, _get_fixture_params -> get_fixture_result on the chain of parents); then
+   the injected fixtures and setup_suite arguments of every suite that gets an initialisation task, and the arguments of
+   every test that is enabled or forced, are looked up. Every one of these operations succeeds: no LookupError ("Cannot find
+   fixture"), no AssertionError ("has not been previously executed" / "already been executed"), no KeyError, whatever
+   force_disabled is.
+   NOT covered here (needs the runner's dynamic model, Exec.v): runs in which a setup fails part-way, teardown order, and the
+   per-thread results. *)
+Theorem C14_no_structural_failure : forall (x : xproject) (pp : prepared) (force_disabled : bool), well_loaded x ->
+  validate x = Ok pp -> dry_run (pp_registry pp) (p_suites (xp_proj x)) force_disabled = Ok tt.
+Proof. exact no_structural_failure. Qed.
+Print Assumptions C14_no_structural_failure.
+
+(* the same fact schedule by schedule, declaratively (level_facts): each schedule of a validated registry exists, has no
+   duplicate, holds exactly the fixtures of its scope reachable from its direct fixtures (closure under transitive
+   dependencies), and lists each fixture after all its parameters of the same scope (dependency-first order) *)
+Theorem C14_schedules_sound : forall (x : xproject) (pp : prepared) (direct : list name) (sc : scope), well_loaded x ->
+  validate x = Ok pp -> (forall f, In f direct -> reg_mem (pp_registry pp) f = true) ->
+  exists fxs, get_scheduled_fixtures_for_scope (pp_registry pp) direct sc = Ok fxs /\
+              level_facts (pp_registry pp) direct sc fxs.
+Proof. exact schedules_sound. Qed.
+Print Assumptions C14_schedules_sound.
+
+(* ---------------------------------------------------------------------------------------------------------------------
+   PLACE RESERVED FOR C14_green (coordinator): "for a validated project whose scripts do not fail, every test of the report
+   is passed or disabled". It needs the runner model (Graph/Exec/Writer) and will be stated here over Exec.exec; until
+   then it is tied through the correspondence only: harness/props/c14.py really runs every accepted generated project
+   (1 thread and 2-8 threads, with and without force_disabled) and requires all tests passed/disabled and no exception.
+   --------------------------------------------------------------------------------------------------------------------- *)
+
+(* ------------------------------------------------------------------ non-vacuity *)
+Definition ex_fixtures : list fixture :=
+  [ mkFixture 5 ScTest [4; 0; 3] false false false [] [];       (* test fixture using a per-thread suite fixture, fixture_name, a session one *)
+    mkFixture 4 ScSuite [3] true false true [] [];              (* per-thread, suite scope *)
+    mkFixture 3 ScSession [6; 1] false false false [] [];       (* session fixture using a pre_run one and cli_args *)
+    mkFixture 6 ScPreRun [] false false false [] [] ].
+Definition ex_suite (deps : list path) (setup_args : list name) : suite :=
+  Suite 10 false (mkHooks (Some (setup_args, [])) None None None) [6]
+        [ mkTest 11 false [] [5; 900] [900] []; mkTest 12 false deps [3] [] []; mkTest 13 true [] [4] [] [] ]
+        [ Suite 20 false (mkHooks None None None None) [] [ mkTest 21 false [[10; 12]] [5; 2] [] [] ] [] ].
+Definition ex_policy : policy := mkPolicy [mkPropRule 1 [7; 8] true false true] [mkTagRule 2 false true] true true.
+Definition ex_md (v : name) : metadata_map :=
+  mkMdMap [([10], mkMeta [] [2])]
+          [([10; 11], mkMeta [(1, 7)] []); ([10; 12], mkMeta [(1, v)] []); ([10; 13], mkMeta [(1, 8)] []); ([10; 20; 21], mkMeta [(1, 7)] [])].
+Definition ex_project (fxs : list fixture) (deps : list path) (setup_args : list name) (v : name) : xproject :=
+  mkXProject (mkProject fxs [ex_suite deps setup_args] [ex_suite deps setup_args]) ex_policy (ex_md v).
+
+(* an accepted project with all four scopes, a per-thread fixture, dependencies, a policy; its test schedule and dry run *)
+Example C14_witness_accepted :
+  exists pp, validate (ex_project ex_fixtures [[10; 11]] [3] 8) = Ok pp /\
+    pp_resolved pp = [([10; 11], []); ([10; 12], [[10; 11]]); ([10; 13], []); ([10; 20; 21], [[10; 12]])] /\
+    (exists l, get_fixtures_scheduled_for_session (pp_registry pp) [ex_suite [[10; 11]] [3]] false = Ok l /\ map fx_name l = [3]) /\
+    dry_run (pp_registry pp) [ex_suite [[10; 11]] [3]] true = Ok tt.
+Proof. eexists. split; [vm_compute; reflexivity|]. split; [vm_compute; reflexivity|]. split; [eexists; split; vm_compute; reflexivity|]. vm_compute. reflexivity. Qed.
+
+(* rejected projects of several kinds: a fixture cycle of length 3, a dependency cycle, a per-thread fixture in setup_suite,
+   a property value outside the accepted ones *)
+Example C14_witness_rejected :
+  validate (ex_project (ex_fixtures ++ [mkFixture 6 ScPreRun [5] false false false [] []]) [[10; 11]] [3] 8) = Err (ValidationError RFxCircular) /\
+  validate (ex_project ex_fixtures [[10; 20; 21]] [3] 8) = Err (ValidationError RDepCircular) /\
+  validate (ex_project ex_fixtures [[10; 11]] [4] 8) = Err (ValidationError RSuitePerThreadFx) /\
+  validate (ex_project ex_fixtures [[10; 11]] [3] 9) = Err (ValidationError RPolBadValue).
+Proof. repeat split; vm_compute; reflexivity. Qed.
+
+(* the input assumptions are satisfiable on these projects *)
+Example C14_witness_well_loaded : well_loaded (ex_project ex_fixtures [[10; 11]] [3] 8).
+Proof.
+  split.
+  - intros fx Hin. simpl in Hin. repeat (destruct Hin as [Hin|Hin]; [subst fx; reflexivity|]). destruct Hin.
+  - intros p t Hp. exists t. split; [exact Hp | reflexivity].
+Qed.
